@@ -854,6 +854,7 @@ func (st *StateDB) clearJournalAndRefund() {
 	st.journal = newJournal()
 	st.validatorJournal = newJournal()
 	st.validRevisions = st.validRevisions[:0]
+	st.valValidRevisions = st.valValidRevisions[:0]
 	st.refund = 0
 }
 
